@@ -304,3 +304,43 @@ pub extern "C" fn c10_seq_container_drop() {
     }
     cover(1);
 }
+
+/// C15 (container part): an `ArcSwapWeak` does not keep its target alive, maps the dangling weak
+/// to null and back, and keeps weak counts exact.
+#[cfg(feature = "weak")]
+#[no_mangle]
+pub extern "C" fn c15_weak_container() {
+    use arc_swap::ArcSwapWeak;
+    use std::sync::Weak;
+    let t1 = Arc::new(1u64);
+    let t2 = Arc::new(2u64);
+    let c = ArcSwapWeak::new(Arc::downgrade(&t1));
+    vassert(Arc::weak_count(&t1) == 1 && Arc::strong_count(&t1) == 1, 1);
+    let g = c.load();
+    vassert(g.upgrade().map(|a| *a) == Some(1), 2);
+    drop(g);
+    // dropping the target: the container does not keep it alive
+    drop(t1);
+    let dead = c.load_full();
+    vassert(dead.upgrade().is_none(), 3);
+    vassert(dead.strong_count() == 0, 4);
+    // replace a dead weak, the dangling one, a live one (symbolic choice)
+    let k = nondet(1);
+    assume(k < 3);
+    let new: Weak<u64> = match k {
+        0 => Weak::new(),
+        1 => Arc::downgrade(&t2),
+        _ => dead.clone(),
+    };
+    let old = c.swap(new);
+    vassert(Weak::ptr_eq(&old, &dead), 5);
+    drop(old);
+    drop(dead);
+    let now = c.load_full();
+    vassert(now.upgrade().is_some() == (k == 1), 6);
+    drop(now);
+    vassert(Arc::weak_count(&t2) == (k == 1) as usize, 7);
+    drop(c);
+    vassert(Arc::weak_count(&t2) == 0 && Arc::strong_count(&t2) == 1, 8);
+    cover(1);
+}
